@@ -38,7 +38,9 @@ theorem C10_strict (args : List Bytes) (ss : List Sentence)
     (hparse : args.map (produce K) = ss.map .ok) :
     oneShotAssemble K true args =
       if ss.all (·.isValid) then oneShotAssemble K false args else .error .invalidNMEAChecksum := by
-  sorry
+  unfold oneShotAssemble
+  rw [oneShotCollect_strict K args ss hparse]
+  cases ss.all (·.isValid) <;> simp
 
 /-- **Single-byte corruption**: replacing any one body byte of a correctly check-summed sentence by
 any other byte that is not `*` gives a line that is either rejected or flagged invalid. -/
@@ -49,7 +51,18 @@ theorem C10_single_byte (d : Byte) (pre post : Bytes) (b b' : Byte)
     (s : Sentence)
     (h : produce K ([d] ++ (pre ++ [b'] ++ post) ++ [STAR] ++ hex2 (xorAll (pre ++ [b] ++ post))) = .ok s) :
     s.isValid = false := by
-  sorry
+  have hx : xorAll (pre ++ [b] ++ post) < 256 := xorAll_lt _ hbytes
+  have hb : STAR ∉ pre ++ [b'] ++ post := by
+    intro hm
+    simp only [List.mem_append, List.mem_singleton] at hm
+    rcases hm with (hm | hm) | hm
+    · exact hpre hm
+    · exact hs hm.symm
+    · exact hpost hm
+  rw [produce_flag K d (pre ++ [b'] ++ post) _ hd hb hx s h]
+  have hne' := xorAll_subst_ne pre post b b' hne
+  simp only [List.append_assoc, List.singleton_append]
+  exact decide_eq_false hne'
 
 /-- non-vacuity: a real sentence parses, is of the stated form and is flagged valid -/
 example :
